@@ -122,6 +122,10 @@ def run(ctx):
     ctx.clause("C07.5 a descriptor, stream or mapping released before its handle dies is forgotten by the handle (a second close would hit whoever got the number next)")
     from ..rules import stalefield
     nst = stalefield.check(ctx, P.funcs_under("src/reader/", "src/writer/"), rule="R27.stale-member", key_prefix="stale-handle")
+    ctx.clause("C07.6 the thread count selects a schedule, never the work: no branch on it skips or adds effectful statements")
+    from ..rules import threadcount
+    ntc = threadcount.check(ctx, [f for f in P.lib_functions() if P.rel(f.file).startswith("src/")])
+    ctx.floor("C07 branches on a thread count", ntc, 1)
     ctx.floor("C07 member releases outside destructors", nst, 15)
     f = P.fn("carquet_batch_reader_next", BR)
     regions = _omp_regions(f)
